@@ -315,10 +315,14 @@ func promotedFromNil(r reflect.Value, name string, depth int) bool {
 			continue
 		}
 		fv := r.Field(i)
+		for fv.Kind() == reflect.Interface && !fv.IsNil() {
+			// An embedded interface may hold a pointer that is nil.
+			fv = fv.Elem()
+		}
 		switch fv.Kind() {
 		case reflect.Ptr, reflect.Interface:
 			if fv.IsNil() {
-				if _, ok := f.Type.MethodByName(name); ok {
+				if _, ok := fv.Type().MethodByName(name); ok {
 					return true
 				}
 				continue
